@@ -100,3 +100,24 @@ PROPS['C06'] = P(
     ['revoke_exact', 'revoke_exact_distinct', 'revoke_is_complete', 'revoke_is_local', 'revoke_is_immediate', 'revoke_twice', 'revoke_keeps_wf'],
     ['dispatch', 'lifetime', 'xw'], 'dispatch', determined=True,
     assumes=['S1: completeness/idempotence theorems assume distinct_regs (one registration per (reactor, key)); revoke_exact states the behaviour without it'])
+
+PROPS['C14'] = P(
+    ['get_mut_one_trigger', 'set_if_neq_exact', 'noreact_never_triggers', 'read_never_triggers', 'res_get_mut_one_trigger',
+     'res_set_if_neq_exact', 'res_noreact_never_triggers', 'explicit_broadcast_one_trigger', 'explicit_entity_event_one_trigger',
+     'insert_queues_pair', 'insert_applied', 'insertion_reaction_iff_component_present', 'no_key_no_reaction'],
+    ['accessor', 'mixed'], 'accessor', determined=True,
+    assumes=['values are u32 in the harness and unbounded N in the model (the generator uses a 3-value domain)'])
+
+# ---------------------------------------------------------------------------------------------------------------
+# MANIFEST texts: (level text, level note, technique, design ref)
+MANIFEST_TEXT = {
+ 'C01': ("Machine-checked theorems (Coq) over the hand-written model: in every state reachable by any program (wf_tables is an invariant of every interpreter step) a trigger application queues exactly one reaction per live matching registration, in order, and nothing else; registration adds exactly the named entry. Tied to /repo on every run by running model and crate on the same generated programs and comparing run samples and table sizes.",
+         "Trusted: Coq kernel, the model's faithfulness (checked by differential runs, bounded by generator coverage), Bevy semantics as modelled, TypeId injectivity. The link 'queued reaction command => exactly one run' is C02.",
+         "Coq proof (refinement of the tables to an abstract registration list) + model/implementation correspondence", "DESIGN.md §5 C01"),
+ 'C06': ("Machine-checked theorems: revoke_one removes exactly the registrations a token names (all matches in the per-entity component, the first match in a type-wide table), keeps every other registration in order, is idempotent, and the next dispatch of any key excludes the revoked reactor; completeness/idempotence under distinct_regs (S1). Tied to /repo by the same differential runs (dispatch/lifetime/xw profiles).",
+         "Trusted: as C01. Duplicate registrations of one reactor under one key are outside the completeness theorem (stated exactly by revoke_exact).",
+         "Coq proof (list refinement lemmas) + model/implementation correspondence", "DESIGN.md §5 C06"),
+ 'C14': ("Machine-checked theorems about the model of each accessor call: get_mut / trigger calls queue exactly one trigger, set_if_neq stores, returns the old value and triggers iff different, get/get_noreact never trigger, and an insertion command carries a trigger key iff the component is on a live entity when it is applied (the D2 fix). Tied to /repo by differential runs of the accessor profile comparing returned values, marks and reactor runs.",
+         "Trusted: as C01; component/resource values are u32 in the crate and unbounded in the model.",
+         "Coq proof (direct, per accessor) + model/implementation correspondence", "DESIGN.md §5 C14"),
+}
